@@ -2843,11 +2843,11 @@ def groupby_reduce(
             preferred_method = "map-reduce"
             chunks_cohorts = {}
 
+        method = _choose_method(method, preferred_method, agg, by_, nax)
+
         if method == "cohorts" and not chunks_cohorts:
             # none of the requested labels occurs: there is nothing to split into cohorts
             method = "map-reduce"
-
-        method = _choose_method(method, preferred_method, agg, by_, nax)
 
         if agg.chunk[0] is None and method != "blockwise":
             raise NotImplementedError(
